@@ -1,8 +1,8 @@
 #!/bin/bash
-# confirm_seed2.sh <ID> <k> <suffix> — confirm change m<k> of a round-2 sub-agent in its scratch worktree /tmp/seed2-<ID>
+# confirm_seed2.sh <ID> <k> <suffix> [round-prefix] — confirm change m<k> of a sub-agent in its scratch worktree /tmp/<round-prefix>-<ID> (default seed2)
 # (baseline suite still 172/0 with the patch; demo fails with the patch and passes without), then store it as
 # /verif/seeded/<ID>-<suffix>/ (patch.diff, demo/, README.md)
-ID=$1; K=$2; SUF=$3; WT=/tmp/seed2-$ID; OUT=/tmp/seed2-$ID-out/m$K
+ID=$1; K=$2; SUF=$3; RND=${4:-seed2}; WT=/tmp/$RND-$ID; OUT=/tmp/$RND-$ID-out/m$K
 export CARGO_TARGET_DIR=$WT/target CARGO_NET_OFFLINE=true
 cd $WT || exit 1
 git checkout -q -- . ; rm -f embedded-cli/tests/seed_demo.rs
@@ -12,11 +12,11 @@ git apply $OUT/patch.diff || { echo "$ID m$K: PATCH DOES NOT APPLY"; exit 1; }
 t=$(cargo test --workspace --offline 2>&1 | grep -E "^test result" | awk '{p+=$4; f+=$6} END {print p" passed "f" failed"}')
 cp $demo embedded-cli/tests/seed_demo.rs
 feat=""; grep -q "verif" $demo && feat="--features verif-hooks"
-cargo test --offline -p embedded-cli $feat --test seed_demo >/tmp/seed2-$ID-m$K-with.log 2>&1; w=$?
+cargo test --offline -p embedded-cli $feat --test seed_demo >/tmp/$RND-$ID-m$K-with.log 2>&1; w=$?
 git apply -R $OUT/patch.diff
-cargo test --offline -p embedded-cli $feat --test seed_demo >/tmp/seed2-$ID-m$K-without.log 2>&1; wo=$?
+cargo test --offline -p embedded-cli $feat --test seed_demo >/tmp/$RND-$ID-m$K-without.log 2>&1; wo=$?
 rm -f embedded-cli/tests/seed_demo.rs
-echo "$ID m$K: baseline with patch: $t; demo with patch: exit $w ($(grep -E '^test result' /tmp/seed2-$ID-m$K-with.log | tail -1)); without: exit $wo ($(grep -E '^test result' /tmp/seed2-$ID-m$K-without.log | tail -1))"
+echo "$ID m$K: baseline with patch: $t; demo with patch: exit $w ($(grep -E '^test result' /tmp/$RND-$ID-m$K-with.log | tail -1)); without: exit $wo ($(grep -E '^test result' /tmp/$RND-$ID-m$K-without.log | tail -1))"
 if [ "$t" = "172 passed 0 failed" ] && [ $w -ne 0 ] && [ $wo -eq 0 ]; then
   D=/verif/seeded/$ID-$SUF; mkdir -p $D/demo; cp $OUT/patch.diff $D/; cp $OUT/demo/* $D/demo/ 2>/dev/null; cp $OUT/README.md $D/ 2>/dev/null
   echo "$ID m$K: CONFIRMED -> $D"
